@@ -514,8 +514,10 @@ fn _factor_inner<T: FloatT>(
     next_colspace.copy_from_slice(&Lp[0..Lp.len() - 1]);
 
     if !logical_factor {
-        // First element of the diagonal D.
-        D[0] = Ax[0];
+        // First element of the diagonal D.  After a symmetric permutation the
+        // first column may have no stored (diagonal) entry at all, in which
+        // case Ax[0] belongs to a later column and the pivot is zero.
+        D[0] = if Ap[1] > Ap[0] { Ax[Ap[0]] } else { T::zero() };
         if regularize_enable {
             let sign = T::from_i8(Dsigns[0]).unwrap();
             if D[0] * sign < regularize_eps {
